@@ -465,6 +465,9 @@ def _strategy_tables(ctx, policy, ref, A, Tm, C, top_k, top_p, slice_, tol, eps)
 # --------------------------------------------------------------------------- main check
 def execute(case, ctx):
     key, envn = case["zoo"]
+    if "mvmoe" in key:
+        from ..policies import moe_watch
+        moe_watch(ctx)  # expert choices within float32 rounding are don't-care (vf.policies, MoE gates)
     mode, B = case["mode"], int(case["B"])
     f64 = bool(case["f64"])
     slice_ = f"{key}/{envn}|{mode}" + ("|B=1" if (envn == "mtsp" and B == 1) else "")
